@@ -641,6 +641,10 @@ func reductions(root *TSpec) []TSpec {
 				}
 				sub := f.T.F[k]
 				sub.T = cloneT(sub.T)
+				sub.Name = f.Name // stays unique among the new siblings
+				if sub.Mode == "tagged" && f.Mode == "tagged" {
+					sub.JName = f.JName
+				}
 				*f = sub
 				return false, true
 			})
